@@ -364,6 +364,17 @@ theorem python_group_argument_is_downloaded (st : St) (remote loc : Str) (c g : 
   obtain ⟨f, hf⟩ := hex m hm
   exact handed_path_is_download_destination st remote loc c m.2 f hf (hin m hm)
 
+/-- **every job links its own input groups**: the `ln -sf <member> <root>.<identifier>` pairs of a job are computed from THAT
+job's `_mentioned` set alone — a whole input resource group a job mentioned gets all its links in that job's command prefix, however
+many other jobs of the run mention the same group -/
+theorem input_group_links_per_job (st : St) (remote loc : Str) (j g : Nat) (gr : GroupRes) (hg : st.group? g = some gr)
+    (hin : gr.job = none) (hm : Rid.group g ∈ (st.job j).mentioned) (m : Str × Nat) (hmem : m ∈ gr.members) :
+    (st.path loc (.file m.2), st.path loc (.group g) ++ ['.'] ++ m.1) ∈ (jobPlan st remote loc j).symlinks := by
+  simp only [jobPlan, List.mem_flatten, List.mem_map]
+  refine ⟨_, ⟨Rid.group g, hm, rfl⟩, ?_⟩
+  simp only [symlinksOf, hg, hin, if_true, List.mem_map]
+  exact ⟨m, hmem, rfl⟩
+
 /-- the links are never removed while the rest of the command is interpolated -/
 theorem links_persist_within_command (st st' : St) (c : Nat) (ts : List Tok) (acc out : Str)
     (h : interpolateToks st c ts acc = .ok (st', out)) (j : Nat) :
